@@ -31,3 +31,11 @@ CHECKS["C14"] = dict(
           "equalities validated by the trace spec: cal_info on every day 2001..2099, the code's own renderings of consecutive days (`mono` events, compared with the spec's "
           "VerCmp and the code's own comparison), is_valid_week_pattern verdicts on all pairings, and library/CLI bumps around every New Year."),
     note=_NOTE, ref="DESIGN.md section 6, C14")
+CHECKS["C16"] = dict(
+    technique="TLA+ spec of PEP 440 and legacy ordering (BVPep440) model-checked with TLC (order laws, PEP 440 example chain) + trace validation of the real comparison pair by pair",
+    text=("Design level: over a universe of abstract PEP 440 records (all pairs; all triples of a sub-universe) and legacy texts TLC checks that the spec's ordering is reflexive, "
+          "antisymmetric, transitive, equal exactly on equal keys, places every legacy text below every PEP 440 text, round-trips through its canonical printing, and reproduces the "
+          "ordering chain and normalisation examples of the PEP 440 document (ASSUMEs). Conformance: for ~1,300 (thorough ~10,000) distinct texts in many spellings the real "
+          "parse_version is asked for class, str() and <, <=, ==, > on seeded pairs and triples; the trace spec parses each text itself and checks the code's answers against "
+          "its ordering and the order laws on the answers themselves."),
+    note=_NOTE, ref="DESIGN.md section 6, C16")
